@@ -136,6 +136,31 @@ theorem seq_unique (tr : List Ev) (s : State) (h : Reach tr s) (a b q : Nat)
     (ha : seqOf s a = some q) (hb : seqOf s b = some q) : a = b :=
   Runner.seq_unique s (run_induct SeqWF seqWF_step tr init s seqWF_init h) a b q ha hb
 
+/-- **One sequence number per message across all attempts, at the dispatcher boundary.**  `wire` logs every
+    attempt (first send and every re-send out of the buffer) with the number in the serialized message:
+    all attempts of a message carry the same number, it is the number the message carries now, and two
+    different messages never go over the wire under one number. -/
+theorem attempts_one_sequence_number (tr : List Ev) (s : State) (h : Reach tr s) :
+    (∀ i q q', (i, q) ∈ s.wire → (i, q') ∈ s.wire → q = q') ∧
+    (∀ i j q, (i, q) ∈ s.wire → (j, q) ∈ s.wire → i = j) ∧
+    (∀ i q, (i, q) ∈ s.wire → seqOf s i = some q) := by
+  have hw : WireOK s := run_induct WireOK wireOK_step tr init s wireOK_init h
+  have hs : SeqWF s := run_induct SeqWF seqWF_step tr init s seqWF_init h
+  refine ⟨?_, ?_, fun i q hi => hw (i, q) hi⟩
+  · intro i q q' h1 h2
+    have a := hw (i, q) h1
+    have b := hw (i, q') h2
+    simp only at a b
+    rw [a] at b; exact Option.some.inj b
+  · intro i j q h1 h2
+    exact Runner.seq_unique s hs i j q (hw (i, q) h1) (hw (j, q) h2)
+
+/-- Non-vacuity: message 1 is attempted twice (first send fails, re-sent by the batch) under number 2. -/
+example : ∃ s, Reach [.connect true, .setState .connected, .produce 1 .other, .send 1 2, .fail 1,
+    .setState .failed, .buf 1 2, .disconnect, .setState .disconnected, .connect true, .setState .reconnecting,
+    .setState .catchingUp, .take 1, .postBatch true [2]] s ∧ (s.wire == [(1, 2), (1, 2)]) = true :=
+  holdsAfter_spec _ _ (by decide)
+
 /-- **Nothing is stranded in the buffer once the runner reports it has caught up** (nor taken for a batch) —
     as long as no buffer task has been orphaned (`orphans = 0`; see `C27_counterexample_stranded`). -/
 theorem caught_up_buffer_empty (tr : List Ev) (s : State) (h : Reach tr s) (ho : s.orphans = 0)
